@@ -481,7 +481,10 @@ var damagedTables = map[string]bool{"CFF ": true, "CFF2": true, "glyf": true, "l
 // maxEditedFile: byte edits are confined to small files (a known, listed C09 finding lets the
 // generated readers allocate gigabytes from edited large files); cutting tables or the file short
 // cannot enlarge any count and is applied to every file.
-const maxEditedFile = 128 << 10
+const (
+	maxEditedFile = 128 << 10
+	bigFile       = 256 << 10
+)
 
 func genDamage(t *rapid.T, pf *poolFont) Damage {
 	var d Damage
@@ -686,7 +689,11 @@ func genProgram(t *rapid.T, cands [][]*poolFont) Program {
 				ops = append(ops, genOp(t, pool, rapid.SampledFrom(heavyOps).Draw(t, "heavyop"), hot))
 				continue
 			}
-			ops = append(ops, genOp(t, pool, rapid.SampledFrom(opKinds).Draw(t, "op"), pick()))
+			kind, f := rapid.SampledFrom(opKinds).Draw(t, "op"), pick()
+			if (kind == kParse || kind == kParseDmg) && len(pool[f].data) > bigFile && rapid.IntRange(0, 3).Draw(t, "bigparse") != 0 {
+				kind = kOutline // loading a large file takes tens of milliseconds under -race: less often
+			}
+			ops = append(ops, genOp(t, pool, kind, f))
 		}
 		if g < nsys {
 			// UseSystemFonts: in none or in several goroutines of a program, once each (a map
